@@ -13,7 +13,7 @@ def main():
     tier = 'thorough' if '--thorough' in sys.argv else 'quick'
     scratch = tempfile.mkdtemp(prefix="dltseed-", dir="/tmp")
     try:
-        env = dict(os.environ, CARGO_NET_OFFLINE="true", VERIF_DIR=f"{scratch}/vd", CARGO_TARGET_DIR=f"{scratch}/target")
+        env = dict(os.environ, CARGO_NET_OFFLINE="true", VERIF_REPO_SRC=f"{scratch}/repo/src", VERIF_DIR=f"{scratch}/vd", CARGO_TARGET_DIR=f"{scratch}/target")
         os.makedirs(f"{scratch}/shadow/dlt-core")
         t = open("/verif/shadow/dlt-core/Cargo.toml").read().replace('/repo/src/lib.rs', f'{scratch}/repo/src/lib.rs')
         open(f"{scratch}/shadow/dlt-core/Cargo.toml", "w").write(t)
